@@ -372,3 +372,7 @@ def run(ctx):
     for fn_ in sorted(q for q in ctx.F.bodies if q.startswith(_ENC) and ctx.F.bodies[q]['kind'] in ('Fn', 'Closure')):
         _cc(ctx, P.B(fn_), 'C07.2-term-encoder-sizes', include_float=False, reviewed=REVIEWED_CAST)
     reviewed_premises(ctx, 'C07.2-term-encoder-sizes')
+
+    # the framing mode is picked by a flag test: the flag must sit on the protocol's bit
+    from .c04 import flag_values
+    flag_values(ctx, 'C07.3-flag-values')
